@@ -21,6 +21,7 @@ type Envelope struct {
 	Kind string `json:"kind"`
 	M    *MCase `json:"matrix_case,omitempty"`
 	O    *OCase `json:"optimizer_case,omitempty"`
+	S    *SCase `json:"stall_case,omitempty"`
 	L    *LCase `json:"loud_case,omitempty"`
 	A    *ACase `json:"algorithm_case,omitempty"`
 	B    string `json:"optimizer_bad_argument,omitempty"`
@@ -31,6 +32,9 @@ func run(c *vf.Ctx) {
 	part := os.Getenv("C20_PART")
 	if part == "" || part == "opt" {
 		termOptimizers(c, &idx)
+	}
+	if part == "" || part == "stall" {
+		termStalls(c, &idx)
 	}
 	if part == "" || part == "matrix" {
 		termMatrices(c, &idx)
@@ -47,10 +51,12 @@ func main() {
 		Level: "exploration",
 		Rule: "termination: every matrix of the lattices (1x1,2x2 over {-2..2}; 3x3, 3x2, 4x2 over {-1,0,1}; thorough adds 3x3 {-2..2}, symmetric 4x4, 4x3) plus all nilpotent {0,1} patterns, Jordan blocks, rank-one matrices, sizes 0/1 and one NaN/±Inf entry at every position, through every routine × termination-relevant option; " +
 			"optimizers × start point × objective poison (NaN/±Inf value or value+gradient, error) from call k=1..5; non-trivial = input on which the routine can iterate (not 1x1/diagonal) resp. the poisoned answer was actually consumed. " +
+			"stalling configurations: newton.RunRoot/RunCrit/RunMin (× Hessian modification), bfgs, rprop, gradientDescent × objective (quadratic with exactly attained minimum, quartic with singular Hessian at the minimum, constant; roots of x-1, x²-1, x²-2, 0, circle∩line) × start points (7; thorough 11) × constraint (none, x0<=b, x0>=b for b in {0,1,2}, 4 boxes; thorough more) × epsilon (default, 1e-30, 0 with MaxIterations 50); non-trivial = feasible start and at least one iteration. " +
 			"loud failure: every operation × storage (dense/sparse) × 9 element types × every shape tuple from dims {0,1,2,3} / index from {-1,0,dim-1,dim,dim+1} / permutation array; non-trivial = the call is non-conforming (must fail) or conforming with a non-empty result (value compared with the model)",
 		Assume: []string{
 			"step budget 2e5·(n+1)^3 loop ticks per call (two-stage: a 100x smaller first stage, exceedance is re-run under the full budget); 1e5 objective evaluations",
 			"termination verdicts accept any of: result, error, panic",
+			"Epsilon{0} means 'no tolerance stop' (the library's own demo programs use it with MaxIterations{N}): enumerated with a finite MaxIterations only; not for gradientDescent, which has no MaxIterations option",
 			"loud failure: a panic or an error return both count as loud; after a rejected call all in-range reads of the receiver must still succeed",
 			"test data are small integers so that every element type (int8..float64, Real) represents all intermediate values exactly",
 		},
@@ -68,6 +74,8 @@ func main() {
 				st.matrix(e.M, 0)
 			case e.O != nil:
 				st.opt(e.O, 0)
+			case e.S != nil:
+				st.stall(e.S, 0)
 			case e.L != nil:
 				runLoud(c, e.L, 0)
 			case e.A != nil:
